@@ -614,4 +614,5 @@ func genAuth(o *Out, tier string, r *Rng) {
 			o.Sample(s.Label + " " + ver + " " + string(s.Event.JSON))
 		}
 	}
+	genAuthSpace(o, tier, r) // C07: named witnesses + bounded-exhaustive membership rule space (gen_authspace.go)
 }
